@@ -177,13 +177,17 @@ Definition team_default {I} : team I := {| t_inds := []; t_sig := hash_empty |}.
 Definition layer (I : Type) := (Z * list I)%type.
 Definition population (I : Type) := list (layer I).
 
-(* summary<T>: best (None when best.solution.empty()), elapsed ms, mutations,
+(* summary<T>: best.solution, best.score.fitness, best.score.accuracy (always
+   present: "no best known" is an empty solution), elapsed ms, mutations,
    crossovers, gen, last_imp *)
 Record summary (I : Type) := {
-  su_best : option (I * list Z * Z);     (* solution, fitness, accuracy *)
+  su_sol : I; su_fit : list Z; su_acc : Z;
   su_elapsed : Z; su_mutations : Z; su_crossovers : Z; su_gen : Z; su_last_imp : Z }.
-Arguments su_best {I}. Arguments su_elapsed {I}. Arguments su_mutations {I}.
+Arguments su_sol {I}. Arguments su_fit {I}. Arguments su_acc {I}.
+Arguments su_elapsed {I}. Arguments su_mutations {I}.
 Arguments su_crossovers {I}. Arguments su_gen {I}. Arguments su_last_imp {I}.
+(* model_measurements(): accuracy = -1.0 *)
+Definition minus_one : Z := 13830554455654793216.
 
 (* distribution<double> *)
 Record distribution := {
@@ -360,6 +364,9 @@ Definition vec_load (elem : parser Z) (s : stream) (t : vec_ind) : lres vec_ind 
 Definition ga_save (v : vec_ind) : stream := show_u (v_age v) ++ [10] ++ ga_save_impl v.
 Definition de_save (v : vec_ind) : stream := show_u (v_age v) ++ [10] ++ de_save_impl v.
 Definition ga_load := vec_load read_i32.
+(* empty(): i_mep: size() == 0;  i_ga / i_de: no parameters *)
+Definition mep_empty (m : mep) : bool := mep_rows m mod (u32_max + 1) =? 0.
+Definition vec_empty (v : vec_ind) : bool := match v_genome v with [] => true | _ => false end.
 Definition de_load := vec_load read_f.
 
 (* --------------------------------------- containers over an individual --- *)
@@ -418,11 +425,9 @@ Definition pop_load (s : stream) (t : population I) : lres (population I) :=
       end
   end.
 
-Definition summary_save (x : summary I) : stream :=
-  (match su_best x with
-   | None => [48; 10]
-   | Some (sol, fit, acc) => [49; 10] ++ isave sol ++ fit_save fit ++ show17 acc ++ [10]
-   end)
+Definition summary_save (isempty : I -> bool) (x : summary I) : stream :=
+  (if isempty (su_sol x) then [48; 10]
+   else [49; 10] ++ isave (su_sol x) ++ fit_save (su_fit x) ++ show17 (su_acc x) ++ [10])
   ++ show_i (su_elapsed x) ++ [32] ++ show_u (su_mutations x) ++ [32] ++ show_u (su_crossovers x)
   ++ [32] ++ show_u (su_gen x) ++ [32] ++ show_u (su_last_imp x) ++ [10].
 
@@ -430,7 +435,8 @@ Definition summary_load (s : stream) (t : summary I) : lres (summary I) :=
   match read_u32 s with
   | None => (false, t, s)
   | Some (known, s1) =>
-      match (if known =? 0 then Some (None, s1)
+      (* summary tmp_summary;  if (known_best) { ... } *)
+      match (if known =? 0 then Some ((idflt, [], minus_one), s1)
              else match ind_parse s1 with
                   | None => None
                   | Some (sol, s2) =>
@@ -439,12 +445,12 @@ Definition summary_load (s : stream) (t : summary I) : lres (summary I) :=
                       | (true, fit, s3) =>
                           match read_f s3 with
                           | None => None
-                          | Some (acc, s4) => Some (Some (sol, fit, acc), s4)
+                          | Some (acc, s4) => Some ((sol, fit, acc), s4)
                           end
                       end
                   end) with
       | None => (false, t, s1)
-      | Some (best, s5) =>
+      | Some ((sol, fit, acc), s5) =>
           match read_i32 s5 with
           | None => (false, t, s5)
           | Some (ms, s6) =>
@@ -460,7 +466,9 @@ Definition summary_load (s : stream) (t : summary I) : lres (summary I) :=
                           match read_u32 s9 with
                           | None => (false, t, s9)
                           | Some (li, s10) =>
-                              (true, {| su_best := best; su_elapsed := ms; su_mutations := mu;
+                              (* *this = tmp_summary *)
+                              (true, {| su_sol := sol; su_fit := fit; su_acc := acc;
+                                        su_elapsed := ms; su_mutations := mu;
                                         su_crossovers := cr; su_gen := ge; su_last_imp := li |}, s10)
                           end
                       end
